@@ -182,7 +182,7 @@ def run(ctx):
     # (C) independent random histories validated by Trace_Purity
     rnd = random.Random(ctx.seed * 7 + 13)
     ops = ['contains', 'to_mask', 'area', 'bounding_box', 'convert', 'rotate', 'copy', 'combine', 'as_artist', 'serialize_ds9',
-           'serialize_crtf', 'serialize_fits', 'write', 'parse', 'slice', 'mask_apply']
+           'serialize_crtf', 'serialize_fits', 'write', 'parse', 'slice', 'mask_apply', 'parse_foreign']
     traces = []
     for t in range(25 if quick else 300):
         hist = []
